@@ -4,6 +4,7 @@ import (
 	"verif/harness/mon/c03"
 	"verif/harness/mon/c06"
 	"verif/harness/mon/c07"
+	"verif/harness/mon/c08"
 	"verif/harness/mon/c09"
 	"verif/harness/mon/c10"
 	"verif/harness/mon/c11"
@@ -19,6 +20,7 @@ func init() {
 	register("C03", c03.Run)
 	register("C06", c06.Run)
 	register("C07", c07.Run)
+	register("C08", c08.Run)
 	register("C09", c09.Run)
 	register("C10", c10.Run)
 	register("C11", c11.Run)
